@@ -1028,5 +1028,42 @@ pub fn sweep_cases(r: &mut Rng, tier: Tier) -> Vec<Case08> {
         out.push(Case08 { class: format!("sweep.disclosure_length_from_placeholder: {}", len), devs: vec![], claims: Value::Null, payload: from_ph, all: vec![dsc.clone()], presented: vec![dsc],
                           key: KeyId::Hmac1, fmt: if k % 2 == 1 { Fmt::Compact } else { Fmt::Json }, want: if *len == 2 { Want::Draft } else { Want::Reject }, own_view: None, affected: vec![], withheld: 0 });
     }
+    // ill-formed referenced disclosures whose text is long and full of multi-byte characters (whatever quotes or abbreviates the
+    // offending text in a message cuts it at some byte offset)
+    for (k, filler) in crate::gen::multibyte_fillers().into_iter().enumerate() {
+        for (shape, member, val) in [("four-elements-from-sd", true, json!(["c2FsdA", "name", filler, "extra"])), ("three-elements-from-placeholder", false, json!(["c2FsdA", filler, "value"])),
+                                     ("non-array-from-sd", true, json!(filler)), ("object-from-placeholder", false, json!({"text": filler})), ("one-element-from-sd", true, json!([filler]))] {
+            if tier == Tier::Quick && (k + shape.len()) % 3 != 0 {
+                continue;
+            }
+            let dsc = b64_json(&val);
+            let dg = hash(&dsc);
+            let payload = if member { json!({"iss": "https://issuer.example", "exp": far, "_sd_alg": "sha-256", "_sd": [dg]}) } else { json!({"iss": "https://issuer.example", "exp": far, "_sd_alg": "sha-256", "list": [1, {"...": dg}]}) };
+            out.push(Case08 { class: format!("sweep.long_multibyte_illformed_disclosure: {} filler {}", shape, k), devs: vec![], claims: Value::Null, payload, all: vec![dsc.clone()], presented: vec![dsc],
+                              key: KeyId::Hmac1, fmt: if k % 2 == 1 { Fmt::Compact } else { Fmt::Json }, want: Want::Reject, own_view: None, affected: vec![], withheld: 0 });
+        }
+    }
+    // a disclosed array element (or member value) that itself LOOKS like a placeholder: the specification decides what the
+    // result is; the inner string is the digest of another presented disclosure, of nothing, or no digest at all
+    {
+        let inner2 = b64_json(&json!(["c2FsdC1pbm5lcg", "inner element"]));
+        let inner3 = b64_json(&json!(["c2FsdC1pbm5lcg", "inner", "member"]));
+        for (k, (name, x, also)) in [("digest-of-a-presented-2-element-disclosure", hash(&inner2), Some(inner2.clone())), ("digest-of-a-presented-3-element-disclosure", hash(&inner3), Some(inner3.clone())),
+                                     ("digest-of-nothing", hash("nothing"), None), ("not-a-digest", "abc".to_string(), None), ("empty-string", String::new(), None)].into_iter().enumerate() {
+            for (vshape, value) in [("bare", json!({"...": x.clone()})), ("with-sibling", json!({"...": x.clone(), "other": 1})), ("inside-array", json!([{"...": x.clone()}, 2])), ("as-sd-list", json!({"_sd": [x.clone()]}))] {
+                for member in [false, true] {
+                    let outer = if member { b64_json(&json!(["c2FsdC1vdXRlcg", "holder", value.clone()])) } else { b64_json(&json!(["c2FsdC1vdXRlcg", value.clone()])) };
+                    let dg = hash(&outer);
+                    let payload = if member { json!({"iss": "https://issuer.example", "exp": far, "_sd_alg": "sha-256", "_sd": [dg], "plain": ["p"]}) } else { json!({"iss": "https://issuer.example", "exp": far, "_sd_alg": "sha-256", "list": ["plain", {"...": dg}]}) };
+                    let mut presented = vec![outer.clone()];
+                    if let Some(i) = &also {
+                        presented.push(i.clone());
+                    }
+                    out.push(Case08 { class: format!("sweep.disclosed_value_looks_like_a_placeholder: {} {} {}", name, vshape, if member { "member" } else { "element" }), devs: vec![], claims: Value::Null, payload, all: presented.clone(), presented,
+                                      key: KeyId::Hmac1, fmt: if k % 2 == 1 { Fmt::Compact } else { Fmt::Json }, want: Want::Draft, own_view: None, affected: vec![], withheld: 0 });
+                }
+            }
+        }
+    }
     out
 }
